@@ -35,6 +35,7 @@ def _translate(fn, name, args, ret, partial, opt=None):
     opt = dict(opt or {})
     f = opt.pop("translator", None) or tr.translate_function
     opt.pop("driver", None)
+    opt.pop("imports", None)  # --- T4: generated files this definition needs (see _translated)
     return f(fn, name, args, ret, partial, **opt)
 
 
@@ -195,6 +196,10 @@ def _translated(prop):
     from . import translate as tr
     out = ["-- generated by harness/translate.py from /repo's current source — do not edit",
            "import OQ.Exec.Py", "set_option linter.unusedVariables false", "namespace OQ.Generated.Translated", ""]
+    # --- T4: a spec may name generated files of OTHER properties its definition calls into ("imports": ["C17"])
+    _imps = sorted({i for _s in _specs()[prop] for i in (_s[5].get("imports", []) if len(_s) > 5 else [])})
+    out[1:2] = ["import OQ.Exec.Py"] + [f"import OQ.Generated.Translated{i}" for i in _imps]
+    # --- end T4
     for fn, name, args, ret, partial, *opt in _specs()[prop]:
         try:
             out.append(_translate(fn, name, args, ret, partial, opt[0] if opt else None))  # --- T2: was tr.translate_function(…, **opt)
